@@ -15,6 +15,9 @@
 (*            decodes to;                                                  *)
 (*  trunc     the first "at" bytes yield exactly the messages that end     *)
 (*            within them;                                                 *)
+(*  sent      the bytes on the wire are Encode of the value given to the   *)
+(*            real encoder (also when other encoders run at the same time: *)
+(*            the records of c10-concurrent);                              *)
 (*  reads     (model conformance, not part of the property) the reads the  *)
 (*            real Reader issued are those RespReader predicts.            *)
 (***************************************************************************)
@@ -55,6 +58,11 @@ Failed(e) ==
                  /\ Len(T.msgs) = e.trunc[i].n
                  /\ e.trunc[i].n = Cardinality({k \in 1..Len(ends) : ends[k] <= e.trunc[i].at})
            THEN "" ELSE "trunc ")
+     \o (IF /\ Len(e.sent) = Len(e.lens)
+            /\ \A k \in 1..Len(e.lens) :
+                 \/ e.inline[k]
+                 \/ Flat(Encode(e.sent[k])) = SubSeq(flat, ends[k] - e.lens[k] + 1, ends[k])
+         THEN "" ELSE "sent ")
      \o (IF e.reads = <<<<0 - 7, 0 - 7>>>> \/ RDecodeAll(flat, e.chunks, e.buf).reads = e.reads
            THEN "" ELSE "reads")
 
